@@ -197,12 +197,19 @@ def T1(inp, k, sends, reads, lmax=LQUICK):
     for i in range(k):
         codec.lengths[i] = inp.int('L%d' % i, 1, lmax)
         msgs.append(i)
+    # steady state of an established connection: the first writable event found nothing to send and dropped the write interest
+    guard(getattr(ca, '_TcpConnection__processConnection'), 7, POLL_EVENT_TYPE.WRITE)
     a.send_budget = sends
     exc = None
     for i in range(k):
         _, exc = guard(ca.send, i)
         if exc is not None:
             break
+    # bytes that did not fit into the socket stay in the write buffer: the connection must then be waiting for the socket to become
+    # writable, otherwise they only move when the application happens to send something else
+    pending = ca.getSendBufferSize() > 0 if exc is None else False
+    subs0 = dict(getattr(ca, '_TcpConnection__poller').subs)
+    waits_for_writable = 7 in subs0 and (subs0[7] & POLL_EVENT_TYPE.WRITE) != 0
     delivered_mid = None
     if exc is None:
         # a few read events with symbolic fragmentation while the sender may still hold bytes
@@ -221,6 +228,7 @@ def T1(inp, k, sends, reads, lmax=LQUICK):
         _, exc = guard(getattr(cb, '_TcpConnection__processConnection'), 7, POLL_EVENT_TYPE.READ)
     cl = {'no_exception': exc is None}
     cl['no_disconnect'] = len(disc) == 0 and cb.state == CONNECTION_STATE.CONNECTED and ca.state == CONNECTION_STATE.CONNECTED
+    cl['write_interest_while_bytes_pending'] = Implies(pending, waits_for_writable)
     cl['prefix_in_order_once_each'] = delivered_mid is None or delivered_mid == msgs[:len(delivered_mid)]
     cl['all_delivered_after_drain'] = got == msgs
     cl['sender_buffer_empty_after_flush'] = bool(Eq(ca.getSendBufferSize(), 0)) if exc is None else True
